@@ -223,50 +223,58 @@ Definition safely_run_set_many (sv : server) (values : list dyn) (args : list dy
       else (Raise e, s')
   end.
 
+(* the routing loop of set_many: batches per server, keys of unroutable items *)
+Fixpoint collect_set (vs : list dyn) (batches : list (server * list dyn)) (failed : list dyn)
+  : HM (list (server * list dyn) * list dyn) :=
+  match vs with
+  | [] => hret (batches, failed)
+  | DTuple [key; value] :: t =>
+      '(osv, k) <== get_client key ;;
+      match osv with
+      | None => collect_set t batches (failed ++ [k])
+      | Some sv => collect_set t (batch_add batches sv (DTuple [k; value])) failed
+      end
+  | _ :: t => collect_set t batches failed
+  end.
+Fixpoint run_set (args : list dyn) (bs : list (server * list dyn)) (failed : list dyn) : HM (list dyn) :=
+  match bs with
+  | [] => hret failed
+  | (sv, vals) :: t => fl <== safely_run_set_many sv vals args ;; run_set args t (failed ++ fl)
+  end.
 Definition set_many (values : list dyn) (args : list dyn) : HM dyn :=
-  r <== (fix go (vs : list dyn) (batches : list (server * list dyn)) (failed : list dyn) : HM (list (server * list dyn) * list dyn) :=
-           match vs with
-           | [] => hret (batches, failed)
-           | DTuple [key; value] :: t =>
-               '(osv, k) <== get_client key ;;
-               match osv with
-               | None => go t batches (failed ++ [k])
-               | Some sv => go t (batch_add batches sv (DTuple [k; value])) failed
-               end
-           | _ :: t => go t batches failed
-           end) values [] [] ;;
+  r <== collect_set values [] [] ;;
   let '(batches, failed0) := r in
-  f <== (fix run (bs : list (server * list dyn)) (failed : list dyn) : HM (list dyn) :=
-           match bs with
-           | [] => hret failed
-           | (sv, vals) :: t => fl <== safely_run_set_many sv vals args ;; run t (failed ++ fl)
-           end) batches failed0 ;;
+  f <== run_set args batches failed0 ;;
   hret (DList f).
 
+(* the routing loop of get_many *)
+Fixpoint collect_get (ks : list dyn) (batches : list (server * list dyn)) : HM (list (server * list dyn)) :=
+  match ks with
+  | [] => hret batches
+  | key :: t =>
+      '(osv, k) <== get_client key ;;
+      match osv with None => collect_get t batches | Some sv => collect_get t (batch_add batches sv k) end
+  end.
+(* end.update(result) *)
+Fixpoint dict_put (d : list dyn) (k v : dyn) : list dyn :=
+  match d with
+  | [] => [DTuple [k; v]]
+  | DTuple [k'; v'] :: r => if dyn_eqb k' k then DTuple [k'; v] :: r else DTuple [k'; v'] :: dict_put r k v
+  | x :: r => x :: dict_put r k v end.
+Definition dict_update (acc : list dyn) (res : dyn) : list dyn :=
+  match res with
+  | DDict items => fold_left (fun d kv => match kv with DTuple [k; v] => dict_put d k v | _ => d end) items acc
+  | _ => acc end.
+Fixpoint run_get (gets : bool) (args : list dyn) (bs : list (server * list dyn)) (acc : list dyn) : HM (list dyn) :=
+  match bs with
+  | [] => hret acc
+  | (sv, ks) :: t =>
+      res <== safely_run sv (icall sv (if gets then 3 else 2) (DList ks :: args)) (DDict []) ;;
+      run_get gets args t (dict_update acc res)
+  end.
 Definition get_many (gets : bool) (keys : list dyn) (args : list dyn) : HM dyn :=
-  batches <== (fix go (ks : list dyn) (batches : list (server * list dyn)) : HM (list (server * list dyn)) :=
-                 match ks with
-                 | [] => hret batches
-                 | key :: t =>
-                     '(osv, k) <== get_client key ;;
-                     match osv with None => go t batches | Some sv => go t (batch_add batches sv k) end
-                 end) keys [] ;;
-  r <== (fix run (bs : list (server * list dyn)) (acc : list dyn) : HM (list dyn) :=
-           match bs with
-           | [] => hret acc
-           | (sv, ks) :: t =>
-               res <== safely_run sv (icall sv (if gets then 3 else 2) (DList ks :: args)) (DDict []) ;;
-               run t (match res with
-                      | DDict items => fold_left (fun d kv => match kv with
-                                                              | DTuple [k; v] =>
-                                                                  (fix set (d : list dyn) : list dyn :=
-                                                                     match d with
-                                                                     | [] => [DTuple [k; v]]
-                                                                     | DTuple [k'; v'] :: r => if dyn_eqb k' k then DTuple [k'; v] :: r else DTuple [k'; v'] :: set r
-                                                                     | x :: r => x :: set r end) d
-                                                              | _ => d end) items acc
-                      | _ => acc end)
-           end) batches [] ;;
+  batches <== collect_get keys [] ;;
+  r <== run_get gets args batches [] ;;
   hret (DDict r).
 
 Definition delete_many (keys : list dyn) (args : list dyn) : HM dyn :=
